@@ -42,7 +42,7 @@ RULE = ('one run = one seeded history through a live connection on a DB '
         'the bound lies before the last transaction; distinct = (kind, '
         'history hash, form, index)')
 BUDGET = {'quick': {'runs': 4000, 'wall': 300, 'chunk': 10},
-          'thorough': {'runs': 300000, 'wall': 1800, 'chunk': 50}}
+          'thorough': {'runs': 300000, 'wall': 1200, 'chunk': 50}}
 ASSUMPTIONS = [
     'points older than the last pack are not opened (the property excludes '
     'them)',
